@@ -317,6 +317,10 @@ func (ci *checkImpl[C]) Batch(tier string, seed uint64) int {
 		deadline *= 4
 	}
 
+	slowMS := 0
+	if v := os.Getenv("VERIF_SLOW"); v != "" {
+		fmt.Sscanf(v, "%d", &slowMS)
+	}
 	var next int64 = -1
 	var stop int32
 	var mu sync.Mutex
@@ -360,8 +364,16 @@ func (ci *checkImpl[C]) Batch(tier string, seed uint64) int {
 				slots[w].idx.Store(int64(idx))
 				slots[w].c.Store(c)
 				slots[w].start.Store(time.Now().UnixNano())
+				tRun := time.Now()
 				v, ierr := ci.safeRun(c, x)
 				slots[w].start.Store(0)
+				if slowMS > 0 && time.Since(tRun) > time.Duration(slowMS)*time.Millisecond {
+					b, _ := json.Marshal(c)
+					if len(b) > 700 {
+						b = b[:700]
+					}
+					fmt.Fprintf(os.Stderr, "slow run %d: %v evals=%d %s\n", idx, time.Since(tRun).Round(time.Millisecond), x.evals, b)
+				}
 				if ierr != nil {
 					mu.Lock()
 					if infraErr == nil {
